@@ -17,6 +17,9 @@ STRUCTS = [
     ("dense4", ["ab", "ac", "ad", "bc", "bd", "cd"]), ("nested", ["abc", "ab", "b"]), ("triples", ["abc", "bcd"]),
     ("unsorted-triples", ["bac", "abd"]), ("three-level", ["abc", "bcd", "cde"]), ("nested-sub", ["abc", "bcd", "bc", "c"]),
     ("loop-triples", ["abc", "bcd", "cda"]), ("unsorted-sep3", ["cbad", "bace"]),
+    # a region that only arises as an intersection of intersections; regions with two non-maximal parents without a common ancestor
+    ("second-order", ["abc", "bcd", "acd"]), ("second-order-4", ["abcd", "abef", "ace"]), ("two-lines", ["abc", "ab", "ade", "ad"]),
+    ("two-fans", ["abc", "abd", "aef", "aeg"]), ("mixed-parents", ["abc", "abd", "be"]),
 ]
 
 
@@ -56,8 +59,27 @@ def structure(name, cliques, sz, rng):
     cl = [tuple(c) for c in cliques]
     rg = RegionGraph(dom, cl, total=1.0, convex=True)
     regions = list(rg.cliques)
+    # The variational problem of C17 is defined by the input cliques alone: its regions are their closure under intersection and a
+    # region must agree with EVERY sub-region. Both are computed here, not read off the implementation's graph: the edges are
+    # the cover relations (Hasse diagram) of the closure, which imply agreement for every nested pair.
+    closure = {frozenset(c) for c in cl}
+    grew = True
+    while grew:
+        grew = False
+        for r1 in list(closure):
+            for r2 in list(closure):
+                z = r1 & r2
+                if z and z not in closure:
+                    closure.add(z); grew = True
+    impl_sets = [frozenset(r) for r in regions]
+    region_problem = None
+    if set(impl_sets) != closure or len(set(impl_sets)) != len(impl_sets):
+        region_problem = "the oracle works on regions %s, the intersection closure of the input cliques is %s" % (
+            sorted("".join(sorted(x)) for x in impl_sets), sorted("".join(sorted(x)) for x in closure))
     idx = {r: i for i, r in enumerate(regions)}
-    edges = [(idx[p], idx[c]) for p in regions for c in rg.children[p]]
+    edges = [(i, j) for i, ri in enumerate(impl_sets) for j, rj in enumerate(impl_sets)
+             if rj < ri and not any(rj < rk < ri for rk in impl_sets)]
+    impl_edges = sorted((idx[p], idx[c]) for p in regions for c in rg.children[p])
     offs, n = [], 0
     for r in regions:
         offs.append(n)
@@ -81,7 +103,7 @@ def structure(name, cliques, sz, rng):
     basis, rank = kernel_basis(A, n)
     dirs = [[b[offs[i]:offs[i] + dom.size(r)] for i, r in enumerate(regions)] for b in basis]
     return {"name": name, "attrs": attrs, "sz": sz, "cliques": cl, "regions": regions, "edges": edges, "dirs": dirs,
-            "kernel_dim": n - rank, "ncells": n}
+            "kernel_dim": n - rank, "ncells": n, "region_problem": region_problem, "impl_edges": impl_edges}
 
 
 def worker(job):
@@ -168,6 +190,9 @@ def run(ctx, canary=False):
             sz[attrs[0]] = 3
         try:
             sts.append(structure(name, cl, sz, rng))
+            if sts[-1]["region_problem"]:
+                ctx.violation("convex oracle does not pose the stated variational problem: " + sts[-1]["region_problem"], {"cliques": cl}, {"kind": "regions"})
+                sts.pop()
         except Exception as ex:
             ctx.violation("RegionGraph(convex=True) construction raised %r on %s" % (ex, cl), {"cliques": cl}, {"kind": "crash"})
     # ---- TLC: every certificate direction is feasible (exact integers)
